@@ -74,10 +74,13 @@ class SQLLineageApp:
                     request_body = environ["wsgi.input"].read(request_body_size)
                     payload = json.loads(request_body)
                     for param in ["d", "f"]:
-                        if param in payload and not str(
-                            Path(payload[param]).absolute()
-                        ).startswith(str(Path(self.root_path).absolute())):
-                            return self.handle_403(start_response)
+                        if param in payload:
+                            requested = Path(payload[param])
+                            if path_info == "/directory" and param == "f" and payload[param]:
+                                # directory route lists the folder containing the file
+                                requested = requested.absolute().parent
+                            if not self.is_under_root(requested):
+                                return self.handle_403(start_response)
                     data = self.routes[path_info](payload)
                     return self.handle_200_json(start_response, data)
                 else:
@@ -104,6 +107,15 @@ class SQLLineageApp:
             return self.handle_404(start_response)
         except (SQLLineageException, RuntimeError) as e:
             return self.handle_400(start_response, str(e))
+
+    def is_under_root(self, path: Path) -> bool:
+        """
+        compare fully resolved paths, so that neither ".." segments nor sibling directories
+        sharing root's name as prefix can escape root_path
+        """
+        root = Path(self.root_path).resolve()
+        target = Path(path).resolve()
+        return target == root or root in target.parents
 
     @staticmethod
     def handle_200_text(start_response, mimetype, text) -> list[bytes]:
